@@ -82,6 +82,26 @@ def m_from_residual(ex, callee, args, ret_ty, frame):
     return NOT_HANDLED
 
 
+def m_map_err(ex, callee, args, ret_ty, frame):
+    v = args[0]
+    if not isinstance(v, VAdt):
+        return NOT_HANDLED
+    i = adt_variant(ex, v, "Result::map_err")
+    rt = norm_ty(ret_ty) if ret_ty else "Result"
+    if i == 0:
+        return VAdt(rt, 0, {0: [ex.adt_fields(v, 0)[0]]}, ex.new_vid())
+    e = ex.adt_fields(v, 1)[0]
+    fn = args[1]
+    if isinstance(fn, VFn):
+        f = ex.P.resolve(fn.name)
+        r = ex.run_function(f, [e], 3) if f is not None else ex.havoc(norm_ty(fn.name), [e], ty_args(rt)[1] if len(ty_args(rt)) > 1 else None)
+    else:
+        r = ex.call_closure(fn, [e])
+        if r is None:
+            return NOT_HANDLED
+    return VAdt(rt, 1, {1: [r]}, ex.new_vid())
+
+
 def m_ok_or_else(ex, callee, args, ret_ty, frame):
     v = args[0]
     if not isinstance(v, VAdt):
@@ -145,6 +165,19 @@ def m_unwrap(ex, callee, args, ret_ty, frame):
     if i == good:
         return ex.adt_fields(v, i)[0]
     raise PathEnd("panic", "unwrap/expect on None/Err")
+
+
+def m_ord_minmax(ex, callee, args, ret_ty, frame):
+    """Ord::min / Ord::max on structs of unsigned integers compared lexicographically (derive(Ord))"""
+    a, b = args
+    if not (isinstance(a, VStruct) and isinstance(b, VStruct) and all(isinstance(x, VInt) for x in a.fields + b.fields)):
+        return NOT_HANDLED
+    lt = z3.BoolVal(False)
+    for x, y in reversed(list(zip(a.fields, b.fields))):
+        lt = z3.Or(z3.ULT(x.bv, y.bv), z3.And(x.bv == y.bv, lt))
+    pick_a = lt if callee.endswith("min") else z3.Not(lt)
+    # min(a, b) = a unless b < a ; max(a, b) = b unless a > b : ties do not matter for plain integers
+    return VStruct(a.ty, [VInt(z3.simplify(z3.If(pick_a, x.bv, y.bv)), x.signed) for x, y in zip(a.fields, b.fields)], ex.new_vid())
 
 
 def m_checked_arith(ex, callee, args, ret_ty, frame):
@@ -444,6 +477,41 @@ def m_collect_vec(ex, callee, args, ret_ty, frame):
     return VSeq(et, len(items), items, ex.new_vid())
 
 
+def m_collect_any(ex, callee, args, ret_ty, frame):
+    """Iterator::collect::<T>() for a T with a FromIterator impl in the dump (e.g. PreResolvedByteCode)"""
+    m = re.search(r"::collect::<(.+)>$", callee)
+    if not m:
+        return NOT_HANDLED
+    target = m.group(1)
+    cands = ex.P.trait_impls.get((base_ty(target), "FromIterator", "from_iter"), [])
+    # the impl for this iterator's item type
+    im = re.match(r"^<(?:\w+::)*\w+<(.+)> as Iterator>::collect", callee)
+    item = norm_ty(im.group(1)).replace(" ", "") if im else None
+    for cand in cands:
+        tr = norm_ty(cand.trait or "").replace(" ", "")
+        if item and tr == f"FromIterator<{item}>":
+            return ex.run_function(cand, [args[0]], 3)
+    if len(cands) == 1:
+        return ex.run_function(cands[0], [args[0]], 3)
+    return NOT_HANDLED
+
+
+def m_set_new(ex, callee, args, ret_ty, frame):
+    return VSeq("String", 0, [], ex.new_vid())
+
+
+def m_set_insert(ex, callee, args, ret_ty, frame):
+    st = deref(ex, args[0])
+    if not isinstance(st, VSeq):
+        return NOT_HANDLED
+    vid = getattr(args[1], "vid", None)
+    present = any(getattr(x, "vid", None) == vid for x in st.items)
+    if not present:
+        st.items.append(args[1])
+        st.length += 1
+    return VBool(not present)
+
+
 def m_vec_try_into_array(ex, callee, args, ret_ty, frame):
     m = re.search(r"TryInto<\[.*; (\d+)\]>>::try_into$", callee)
     v = args[0]
@@ -454,6 +522,27 @@ def m_vec_try_into_array(ex, callee, args, ret_ty, frame):
     if v.length == int(m.group(1)):
         return mk_result(ex, rt, ok=VSeq(v.elem_ty, v.length, v.items, ex.new_vid()))
     return mk_result(ex, rt, err=v)
+
+
+def m_box_new_uninit(ex, callee, args, ret_ty, frame):
+    """Box::<[T; N]>::new_uninit(): the lowering of `vec![..]` writes the array through the box's
+    raw pointer and then calls box_assume_init_into_vec_unsafe"""
+    cell = VStruct("MaybeUninit", [VUnit(), VStruct("ManuallyDrop", [VStruct("MaybeDangling", [VSeq("?", 0, [], ex.new_vid())])])], ex.new_vid())
+    key = ex.heap(cell, "box")
+    return VStruct("Box", [VStruct("Unique", [VRef(key, (), True)])], ex.new_vid())
+
+
+def m_box_into_vec(ex, callee, args, ret_ty, frame):
+    b = args[0]
+    try:
+        r = b.fields[0].fields[0]
+        cell = ex.read(r.root, r.path)
+        arr = cell.fields[1].fields[0].fields[0]
+    except Exception:
+        return NOT_HANDLED
+    if not isinstance(arr, VSeq):
+        return NOT_HANDLED
+    return arr
 
 
 def m_vec_from_array(ex, callee, args, ret_ty, frame):
@@ -605,11 +694,18 @@ BUILTIN = [
     (r"^<impl \[.*\]>::iter$", m_slice_iter),
     (r"^Vec(::)?(<.*>)?::iter$", m_slice_iter),
     (r"^<impl \[.*\]>::reverse$", m_slice_reverse),
+    (r"^Box::<\[.*; \d+\]>::new_uninit$", m_box_new_uninit),
+    (r"^box_assume_init_into_vec_unsafe::<", m_box_into_vec),
     (r"^Vec(::)?(<.*>)?::extend_from_slice$", m_extend_from_slice),
     (r"^<impl \[.*\]>::to_vec$|^<\[.*\] as ToOwned>::to_owned$", m_to_vec),
     (r"^<.+ as Iterator>::map::<", m_iter_map),
     (r"^<Vec<.*> as Extend<.*>>::extend::<", m_vec_extend),
     (r"^<.+ as Iterator>::collect::<Vec<.*>>$", m_collect_vec),
+    (r"^<.+ as Iterator>::collect::<[A-Z]\w*>$", m_collect_any),
+    (r"^HashSet(::)?(<.*>)?::new$", m_set_new),
+    (r"^HashSet(::)?(<.*>)?::insert$", m_set_insert),
+    (r"^HashSet(::)?(<.*>)?::iter$", m_slice_iter),
+    (r"^<hash_set::Iter<.*> as Iterator>::next$|^<Iter<String> as Iterator>::next$", m_iter_next),
     (r"^<Vec<.*> as TryInto<\[.*; \d+\]>>::try_into$", m_vec_try_into_array),
     (r"^<impl \[.*\]>::(first|last|split_first|split_last|get)(::<.*>)?$", m_slice_ends),
     (r"^<impl \[.*\]>::into_vec", m_vec_from_array),
@@ -619,7 +715,10 @@ BUILTIN = [
     (r"^<(Vec<.*>|\[.*\]) as (Index|IndexMut)<usize>>::(index|index_mut)$", m_vec_index),
     (r"^Option(::)?(<.*>)?::unwrap_or_else", m_option_unwrap_or_else),
     (r"^Option(::)?(<.*>)?::ok_or_else", m_ok_or_else),
+    (r"^Result(::)?(<.*>)?::map_err::", m_map_err),
     (r"::checked_(add|sub)$", m_checked_arith),
+    (r"^<\w+ as Ord>::(min|max)$", m_ord_minmax),
+    (r"^<.+ as Iterator>::next$", m_iter_next),
     (r"^<.+ as Fn(Once|Mut)?<.*>>::call(_once|_mut)?$", m_fn_call),
     (r"^<\w+ as (TryInto|TryFrom)<\w+>>::(try_into|try_from)$", m_int_try_into),
     (r"^(Result|Option)(::)?(<.*>)?::(unwrap|expect)$", m_unwrap),
@@ -634,5 +733,5 @@ BUILTIN = [
     (r"^(format|Arguments(<.*>)?::new|Argument(<.*>)?::new_\w+)", m_opaque),
     (r"^fmt::format$|::fmt::format$|^std::fmt::format$", m_opaque),
     (r"^String::new$", m_string_new),
-    (r"^<str as ToString>::to_string$|^<str as ToOwned>::to_owned$|^str::to_owned$|^<impl str>::to_owned$|^<String as (From<&str>|Clone)>", m_to_string),
+    (r"^<str as ToString>::to_string$|^<str as ToOwned>::to_owned$|^str::to_owned$|^<impl str>::to_owned$|^<String as (From<&str>|Clone|ToString)>", m_to_string),
 ]
